@@ -8,10 +8,19 @@
 import Y0.Lemmas.PrintExpr
 import Y0.Lemmas.PrintEvalExpr
 import Y0.Lemmas.PrintDenEval
+import Y0.Lemmas.PrintBalanced
 
 namespace Y0
 namespace C12
 open Print PyParse PyEval
+
+/-! ## 0. the printed token list of ANY expression object has balanced, properly nested `( )` and `[ ]` -/
+
+theorem print_balanced (e : Expr) : Print.balanced (Print.expr e) = true := (bal_exprM e .full).balanced
+
+/-- … as a segment: scanning it from any bracket stack returns to that stack, whatever follows -/
+theorem print_balanced_segment (e : Expr) (m : Mode) (stack rest : List Tok) :
+    balancedFrom stack (exprM m e ++ rest) = balancedFrom stack rest := bal_exprM e m stack rest
 
 /-! ## 1. printing is unambiguous: the printed tokens, read with Python's operator precedence, have exactly the
 operator tree of the object -/
